@@ -53,6 +53,9 @@ struct Machine
     /// a crop boundary coincided with a knot to within rounding: whether a sliver segment of length ~ulp exists is then
     /// decided by rounding, so size() is not compared in this state and its descendants (values still are)
     bool fuzzy = false;
+    /// times of knots where the curve may jump (local concatenation of a spline that does not start at identity): the value AT
+    /// such a knot is ambiguous (statement: x1's side, header: x2's side), so crops are not generated with a boundary exactly there
+    std::vector<L> jumps;
     L tmax() const
     {
       L s = 0;
@@ -77,6 +80,7 @@ struct Machine
                                                                  // a local spline starting elsewhere would make the result discontinuous)
   std::vector<std::function<Sp(const G &)>> factories;           // the same curves anchored at a given start (concat_global)
   std::vector<std::string> atom_names;
+  std::vector<bool> nonidentity_start;
   std::string tn;
 
   static M mat(const G & g)
@@ -155,7 +159,7 @@ struct Machine
   // ---------------- operations (applied to library object and reference alike)
   struct Op
   {
-    int kind;  // 0 concat_local, 1 concat_global, 2 crop
+    int kind;  // 0 concat_local (identity-start atom), 1 concat_global, 2 crop, 3 concat_local with a fixed atom (any start)
     int atom;
     double ta, tb;
     bool loc;
@@ -163,6 +167,7 @@ struct Machine
     {
       if (kind == 0) return mc::fmt("concat_local(atom%d anchored at identity)", atom);
       if (kind == 1) return mc::fmt("concat_global(atom%d anchored at end())", atom);
+      if (kind == 3) return mc::fmt("concat_local(atom%d as is: non-identity start)", atom);
       return mc::fmt("crop(%a~%.10g, %a~%.10g, %s)", ta, ta, tb, tb, loc ? "localize" : "global");
     }
   };
@@ -178,6 +183,12 @@ struct Machine
       const M E = end_value(st.r);
       st.s.concat_local(*local_atoms[size_t(o.atom)]);
       st.r.pcs.push_back({local_atoms[size_t(o.atom)], E, 0, (L)local_atoms[size_t(o.atom)]->t_max()});
+    } else if (o.kind == 3) {
+      // y(t) = x1(t1) * x2(t - t1) also holds for an x2 that does not start at identity (the curve then jumps at t1)
+      const M E = end_value(st.r);
+      st.r.jumps.push_back(st.r.tmax());
+      st.s.concat_local(*atoms[size_t(o.atom)]);
+      st.r.pcs.push_back({atoms[size_t(o.atom)], E, 0, (L)atoms[size_t(o.atom)]->t_max()});
     } else if (o.kind == 1) {
       // global concatenation of a curve that starts where this one ends (a Spline is a continuous curve): the appended
       // spline is the atom's curve anchored at end(), as a fresh object that then also serves as the reference of its piece
@@ -188,6 +199,8 @@ struct Machine
       const L ta = std::max<L>(o.ta, 0), tb = std::min<L>(o.tb, st.r.tmax());
       RefS n;
       n.fuzzy = st.r.fuzzy;
+      for (auto j : st.r.jumps)
+        if (j > ta && j < tb) n.jumps.push_back(j - ta);
       if (tb > ta) {
         const M Lf = o.loc ? ref::inv(value_right(st.r, ta)) : M::Id();
         const L dl = 32 * std::numeric_limits<double>::epsilon() * std::max<L>(1, st.r.tmax());
@@ -213,6 +226,8 @@ struct Machine
       ops.push_back({0, a, 0, 0, false});
       ops.push_back({1, a, 0, 0, false});
     }
+    for (int a = 0; a < na; ++a)
+      if (nonidentity_start[size_t(a)] && (full || a == 1)) ops.push_back({3, a, 0, 0, false});
     std::vector<double> ts;
     const double tm = st.s.t_max();
     if (tm > 0) {
@@ -229,6 +244,11 @@ struct Machine
         prev = e;
       }
       ts.push_back(tm + 0.5);
+      ts.erase(std::remove_if(ts.begin(), ts.end(), [&](double t) {
+        for (auto j : st.r.jumps)
+          if (std::fabs((L)t - j) < 1e-12) return true;
+        return false;
+      }), ts.end());
       std::sort(ts.begin(), ts.end());
       for (size_t i = 0; i < ts.size(); ++i)
         for (size_t j = i + 1; j < ts.size(); ++j) {
@@ -354,9 +374,19 @@ struct Machine
     for (size_t i = 0; i + 1 < cuts.size(); ++i) s += std::fabs(F(cuts[i + 1]) - F(cuts[i]));
     return s;
   }
-  void judge_arclength(mc::Case & c, const State & st, const std::vector<double> & ts) const
+  void judge_arclength(mc::Case & c, const State & st, const std::vector<double> & ts, bool relative_to_total = false) const
   {
     double worst = 0;
+    L total[D] = {};
+    if (relative_to_total) {
+      for (auto & p : st.r.pcs) {
+        const Ev e0 = atom_eval(p.atom, p.s0), e1 = atom_eval(p.atom, p.s0 + p.T / 2), e2 = atom_eval(p.atom, p.s0 + p.T);
+        for (int k = 0; k < D; ++k) {
+          const L y0 = e0.vel[k], y1 = e1.vel[k], y2 = e2.vel[k], h = p.T / 2;
+          total[k] += int_abs_quadratic((y0 - 2 * y1 + y2) / (2 * h * h), (-3 * y0 + 4 * y1 - y2) / (2 * h), y0, 0, p.T);
+        }
+      }
+    }
     for (double t : ts) {
       const Tan al = st.s.arclength(t);
       L refv[D] = {};
@@ -375,7 +405,10 @@ struct Machine
         }
         off += p.T;
       }
-      for (int k = 0; k < D; ++k) worst = std::max(worst, (double)(std::fabs((L)al(k) - refv[k]) / std::max<L>(1, refv[k])));
+      for (int k = 0; k < D; ++k) {
+        const L scale = relative_to_total ? std::max<L>(total[k], 1e-300L) : std::max<L>(1, refv[k]);
+        worst = std::max(worst, (double)(std::fabs((L)al(k) - refv[k]) / scale));
+      }
       if (!(al.array() == al.array()).all()) worst = INFINITY;
     }
     c.judge("arclength", worst, 1e-9);
@@ -528,6 +561,7 @@ void run(const std::string & tn)
     m.atom_names.push_back("Spline(T=1, V', g2)");
   }
   for (auto & f : m.factories) m.local_atoms.push_back(std::make_shared<const Sp>(f(I)));
+  for (auto & a : m.atoms) m.nonidentity_start.push_back((Mc::mat(a->start()) - Mc::M::Id()).maxabs() > 1e-6);
   // atom-level clauses: ConstantVelocity(v,T,ga)(t) = ga*exp(t v) for every degree; FixedCubic end conditions
   {
     struct CV
@@ -572,6 +606,42 @@ void run(const std::string & tn)
       });
     }
   }
+  // arclength over magnitudes: slow / short segments with sign-changing quadratic velocity components (vector spaces, K = 3)
+  if constexpr (K == 3 && Ref<G>::NRot == 0) {
+    const std::vector<double> scales = {1, 1e-2, 1e-3, 1e-4, 1e-6}, Ts = {2e-4, 1e-2, 1, 50};
+    const std::vector<double> fr = {-0.2, 0, 0.1, 0.3, 0.5, 0.7, 0.9, 1.0, 1.3};
+    const int nshape = 6;
+    mc::explore("C12/arclength-scales/" + tn, scales.size() * Ts.size() * nshape * 2, [&](mc::Case & c) {
+      mc::Radix r(c.idx);
+      const bool two = r.next(2);
+      const int sh   = int(r.next(nshape));
+      const double T = Ts[r.next(Ts.size())], sc = scales[r.next(scales.size())];
+      Eigen::Matrix<double, Mc::D, K> V;
+      // control velocities with sign changes: patterns of (+,-,+), (-,+,+), ...
+      static const double pat[6][3] = {{1, -1, 1}, {-1, 2, 0.5}, {0.5, -0.1, -1}, {1, 1, -2}, {-0.3, 1, -0.3}, {2, -3, 2}};
+      for (int j = 0; j < K; ++j)
+        for (int i = 0; i < Mc::D; ++i) V(i, j) = sc * T / 3 * pat[(sh + i) % 6][j];
+      typename Mc::State st;
+      auto a1 = std::make_shared<const Sp>(Sp(T, V, I));
+      st.s = *a1;
+      st.r.pcs.push_back({a1, Mc::M::Id(), 0, (L)T});
+      if (two) {
+        Eigen::Matrix<double, Mc::D, K> V2 = -0.7 * V;
+        auto a2 = std::make_shared<const Sp>(Sp(0.5 * T, V2, I));
+        const auto E = m.end_value(st.r);
+        st.s.concat_local(*a2);
+        st.r.pcs.push_back({a2, E, 0, (L)(0.5 * T)});
+      }
+      c.desc = [&, T, sc, sh, two] { return mc::fmt("T=%g velocity scale=%g control pattern #%d segments=%d", T, sc, sh, two ? 2 : 1); };
+      c.param("scale", sc);
+      std::vector<double> ts;
+      for (double f : fr) ts.push_back(f * st.s.t_max());
+      // relative to the total length (small curves must be accurate relative to their own size)
+      const auto tot = st.s.arclength(st.s.t_max());
+      (void)tot;
+      m.judge_arclength(c, st, ts, true);
+    });
+  }
   // initial states: empty (identity and generic start), each atom
   std::vector<typename Mc::State> init;
   std::vector<std::string> names;
@@ -594,7 +664,7 @@ void run(const std::string & tn)
     names.push_back("atom" + std::to_string(a) + "=" + m.atom_names[size_t(a)]);
   }
   const bool th = mc::thorough();
-  m.bfs(init, names, th ? 3 : 2, th ? 4 : 3);
+  m.bfs(init, names, th ? 4 : 3, th ? 5 : 3);
 }
 
 }  // namespace c12
